@@ -58,7 +58,7 @@ def sortable_proxy(
 
     for idx in numpoly.glexsort(poly.exponents.T, graded=graded, reverse=reverse):
         indices = numpy.all(largest == poly.exponents[idx], axis=-1)
-        values = numpy.argsort(coefficients[idx][indices])
+        values = numpy.argsort(coefficients[idx][indices], kind="stable")
         proxy[indices] = numpy.argsort(values) + numpy.max(proxy) + 1
 
     proxy = numpy.argsort(numpy.argsort(proxy.ravel())).reshape(proxy.shape)
